@@ -456,19 +456,7 @@ func (fr *Frame) builtin(b *ssa.Builtin, cc *ssa.CallCommon, args []Val, resT ty
 			t := "(mkB (and (b_nil " + a.T + ") (= (str.len " + bs + ") 0)) (str.++ (b_s " + a.T + ") " + bs + "))"
 			return Val{S: "Bytes", T: fc.def("app", "Bytes", t), Typ: cc.Args[0].Type()}
 		default:
-			es := strings.TrimSuffix(strings.TrimPrefix(a.S, "(Slice "), ")")
-			// single-element append (varargs slice of known length 1) is by far the common case
-			n := fc.B.Fresh("appended", a.S)
-			la, lb := "(s_len "+a.T+")", "(s_len "+bb.T+")"
-			fc.B.Assert(and(eq("(s_len "+n+")", "(+ "+la+" "+lb+")"),
-				eq("(s_nil "+n+")", "(and (s_nil "+a.T+") (= "+lb+" 0))"),
-				fmt.Sprintf("(forall ((i Int)) (! (=> (and (<= 0 i) (< i %s)) (= (select (s_arr %s) i) (select (s_arr %s) i))) :pattern ((select (s_arr %s) i))))", la, n, a.T, n),
-			))
-			// element-wise for the appended part: instantiate for small constant lengths, quantified otherwise
-			fc.B.Assert(fmt.Sprintf("(forall ((i Int)) (! (=> (and (<= 0 i) (< i %s)) (= (select (s_arr %s) (+ %s i)) (select (s_arr %s) i))) :pattern ((select (s_arr %s) i))))", lb, n, la, bb.T, bb.T))
-			fc.B.Assert(implies(eq(lb, "1"), eq("(select (s_arr "+n+") "+la+")", "(select (s_arr "+bb.T+") 0)")))
-			_ = es
-			return Val{S: a.S, T: n, Typ: cc.Args[0].Type()}
+			return fr.appendSlices(a, bb, cc.Args[0].Type())
 		}
 	case "copy":
 		fc.unsupported("builtin copy in %s", fr.fn.Name())
